@@ -149,7 +149,10 @@ def revalue(spec, rng):
             d["vals"] = vals
         # hyper-parameters that do not change the output shape may differ between folded copies
         if d["op"] == "clamp" and rng.random() < 0.7:
-            d["vmin"], d["vmax"] = rng.choice([(0.5, None), (None, 1.5), (0.25, 2.0), (-0.5, 0.75), (1.0, 3.0)])
+            # a positive lower bound stays positive: later operators (log) may rely on it
+            opts = [(0.5, None), (0.25, 2.0), (1.0, 3.0)] if (d.get("vmin") or 0) > 0 else \
+                [(0.5, None), (None, 1.5), (0.25, 2.0), (-0.5, 0.75), (1.0, 3.0)]
+            d["vmin"], d["vmax"] = rng.choice(opts)
         if d["op"] == "scaled_sigmoid" and rng.random() < 0.7:
             d["vmin"], d["vmax"] = rng.choice([(0.25, 2.5), (0.5, 1.0), (0.0, 4.0)])
         if d["op"] in ("softmax", "log_softmax") and rng.random() < 0.7:
@@ -314,6 +317,9 @@ def run_scenario(run: Run, scen: dict, rng: random.Random):
                 gg = float(np.real(g)); ee = float(e)
                 # leaf values are O(1) dyadics: an absolute floor of 1e-12 absorbs x - log(exp(x)) style round-off
                 ok = (gg == ee) or abs(gg - ee) <= 1e-9 * abs(ee) + 1e-12
+                if np.isnan(gg) and np.isnan(ee):
+                    ok = True  # outside the domain of the operator (log of a negative entry) in both
+                    run.feature("outside_domain_in_both", True)
             if ok:
                 run.tolerance += 1
                 continue
